@@ -148,6 +148,17 @@ func (e *emitter) ref(t *Term, bv map[string]bool) string {
 		return smtName(t.Name)
 	}
 	e.declSorts(t)
+	if t.Op == OSelect && !e.dependsOnBound(t, bv) {
+		// elements of machine-integer arrays keep their type range (the array variable carries it)
+		if lo, ok := e.f.VarLo[rootArr(t.Args[0])]; ok {
+			key := fmt.Sprintf("selrange:%d", t.id)
+			if !e.declared[key] {
+				e.declared[key] = true
+				hi := e.f.VarHi[rootArr(t.Args[0])]
+				e.pendingDefs = append(e.pendingDefs, e.f.And(e.f.intern(&Term{Op: OLe, Args: []*Term{e.f.Int(lo), t}, S: SBool}), e.f.intern(&Term{Op: OLe, Args: []*Term{t, e.f.Int(hi)}, S: SBool})))
+			}
+		}
+	}
 	if ds, ok := e.f.Defs[t]; ok {
 		for _, d := range ds {
 			if !e.declared[fmt.Sprintf("def:%d", d.id)] {
@@ -272,6 +283,9 @@ func (e *emitter) declFunc(t *Term) {
 		as = append(as, a.S.Name)
 	}
 	fmt.Fprintf(&e.sb, "(declare-fun %s (%s) %s)\n", n, strings.Join(as, " "), t.S.Name)
+	if t.Name == "ring.iszero" {
+		fmt.Fprintf(&e.sb, "(assert (ring.iszero 0))\n") // the zero of the ring is zero
+	}
 }
 
 func (e *emitter) declBitop(op Op, w int, fn string) {
